@@ -463,6 +463,37 @@ def write_replay(ctx, sig, clause, case, detail):
     return path
 
 
+def represent(a, key=None, dtypes=True):
+    """The same values in another in-memory representation, chosen as a pure
+    function of the values (or of `key`): C order, Fortran order, a
+    non-contiguous strided view, and - when every value survives the cast and
+    `dtypes` is set - float32.  Input representation is part of the domain
+    "all inputs"; the reference models always see the plain values."""
+    import zlib
+    a = np.ascontiguousarray(a)
+    if a.dtype.kind != "f" or a.size == 0:
+        return a
+    if key is None:
+        key = zlib.crc32(a.tobytes()) ^ (a.ndim * 7919 + a.shape[-1])
+    k = key % 5
+    if k == 1 and a.ndim >= 2:
+        return np.asfortranarray(a)
+    if k == 2:
+        big = np.zeros(a.shape[:-1] + (2 * a.shape[-1],), dtype=a.dtype)
+        big[..., ::2] = a
+        big[..., 1::2] = -7.25
+        return big[..., ::2]
+    if k == 3 and a.ndim >= 2:
+        big = np.full((2 * a.shape[0],) + a.shape[1:], 3.5, dtype=a.dtype)
+        big[::2] = a
+        return big[::2]
+    if k == 4 and dtypes:
+        b = a.astype(np.float32)
+        if np.array_equal(b.astype(np.float64), a, equal_nan=True):
+            return b
+    return a
+
+
 def seed_library_rngs(a, b=None):
     """All randomness consumed by the code under test derives from integers
     drawn by Hypothesis (stored in the case)."""
